@@ -5,8 +5,11 @@ import (
 	"net"
 	"net/http"
 	"net/http/httptest"
+	"os"
+	"path/filepath"
 	"sort"
 	"strings"
+	"sync"
 	"time"
 
 	"github.com/vicanso/pike/cache"
@@ -335,6 +338,108 @@ func init() {
 			c.runBFS("bfs-updates", sys, depth, nil)
 			env.FreshAll()
 			procEnv = nil
+		}
+		if c.Shard == 0 && c.Want("bind-retry-after-busy-port") {
+			// a server whose address is busy when it is added must come up at a later update, like a fresh start would
+			st := c.Stat("bind-retry-after-busy-port", "enumeration")
+			st.Bounds = "a configuration adding a server on a port that is busy at that moment, the port freed, the same configuration applied again (and a variant with another update in between)"
+			for variant := 0; variant < 2; variant++ {
+				env.Silence()
+				env.FreshAll()
+				procEnv = nil
+				blocker, err := net.Listen("tcp", "127.0.0.1:0")
+				if err != nil {
+					continue
+				}
+				addr := blocker.Addr().String()
+				mk := func() *config.PikeConfig {
+					p := *menu[0]
+					p.Servers = append([]config.ServerConfig(nil), menu[0].Servers...)
+					p.Servers = append(p.Servers, config.ServerConfig{Addr: addr, Locations: []string{"l1"}, Cache: "c1"})
+					return &p
+				}
+				_ = env.Apply(menu[0])
+				_ = env.Apply(mk()) // bind fails: the port is busy
+				blocker.Close()
+				if variant == 1 {
+					_ = env.Apply(menu[1])
+				}
+				_ = env.Apply(mk())
+				st.Execs++
+				up := false
+				for t0 := time.Now(); time.Since(t0) < 3*time.Second; time.Sleep(100 * time.Millisecond) {
+					if conn, err := net.DialTimeout("tcp", addr, 300*time.Millisecond); err == nil {
+						conn.Close()
+						up = true
+						break
+					}
+				}
+				if !up {
+					c.Violation("bind-retry-after-busy-port", "server-never-comes-up-after-failed-bind", fmt.Sprintf("server %s was added while its port was busy; after the port was freed and the configuration applied again it still does not listen (a fresh start with that configuration does)", addr), nil, map[string]int{"variant": variant}, nil)
+				}
+				env.FreshAll()
+			}
+			procEnv = nil
+			st.States, st.Transitions, st.Nontrivial = st.Execs, st.Execs, st.Execs
+			st.NOutcomes = int(st.Execs)
+		}
+		if c.Shard == 0 && c.Want("file-watch-rapid-saves") {
+			// the file client must deliver a change notification after the LAST save of a burst
+			st := c.Stat("file-watch-rapid-saves", "enumeration")
+			st.Bounds = "bursts of 2..4 saves of the configuration file 0/20/200 ms apart with a slow (100 ms) apply callback: the content read by the last callback must be the final content"
+			dir := filepath.Join("/verif/.work", fmt.Sprintf("c16watch-%d", os.Getpid()))
+			os.MkdirAll(dir, 0o755)
+			defer os.RemoveAll(dir)
+			n := 0
+			for _, burst := range []int{2, 3, 4} {
+				for _, gap := range []time.Duration{0, 20 * time.Millisecond, 200 * time.Millisecond} {
+					n++
+					file := filepath.Join(dir, fmt.Sprintf("pike-%d.yml", n))
+					if err := config.InitDefaultClient(file); err != nil {
+						c.Violation("file-watch-rapid-saves", "harness-config-client", err.Error(), nil, nil, nil)
+						continue
+					}
+					var mu sync.Mutex
+					lastSeen := ""
+					go config.Watch(func() {
+						time.Sleep(100 * time.Millisecond) // applying a configuration takes time (health checks)
+						if cfg, err := config.Read(); err == nil && len(cfg.Caches) > 0 {
+							mu.Lock()
+							lastSeen = cfg.Caches[0].Remark
+							mu.Unlock()
+						}
+					})
+					time.Sleep(150 * time.Millisecond) // let the watcher register
+					final := ""
+					for i := 0; i < burst; i++ {
+						p := c17Base()
+						final = fmt.Sprintf("save-%d-of-%d", i+1, burst)
+						p.Caches[0].Remark = final
+						if err := config.Write(p); err != nil {
+							c.Violation("file-watch-rapid-saves", "harness-write", err.Error(), nil, nil, nil)
+						}
+						time.Sleep(gap)
+					}
+					ok := false
+					for t0 := time.Now(); time.Since(t0) < 4*time.Second; time.Sleep(50 * time.Millisecond) {
+						mu.Lock()
+						ok = lastSeen == final
+						mu.Unlock()
+						if ok {
+							break
+						}
+					}
+					st.Execs++
+					if !ok {
+						mu.Lock()
+						c.Violation("file-watch-rapid-saves", "final-save-never-applied", fmt.Sprintf("%d saves %v apart: the last change notification saw %q, the file holds %q", burst, gap, lastSeen, final), nil, map[string]interface{}{"burst": burst, "gap_ms": gap.Milliseconds()}, nil)
+						mu.Unlock()
+					}
+					config.Close()
+				}
+			}
+			st.States, st.Transitions, st.Nontrivial = st.Execs, st.Execs, st.Execs
+			st.NOutcomes = int(st.Execs)
 		}
 		if c.Thorough() && c.Shard == 0 && c.Want("removed-server-stops-listening") {
 			// real-time observation: elton's graceful close waits up to 10 s
